@@ -46,11 +46,14 @@ type world struct {
 	inter  []*gen.Cert
 	t2link string
 	t2byC1 string
+	t2byK1 string
 }
 
 type Case struct {
-	T2ByC1    bool     `json:"t2_by_c1,omitempty"` // the second step's only link is signed by certificate holder C1 (not authorised there)
-	Mode      string   `json:"mode"`               // keys | cert | mixed
+	T2ByK1    bool     `json:"t2_by_k1,omitempty"`        // the second step's only link is signed by K1, a key authorised for step s only
+	Params    bool     `json:"with_parameters,omitempty"` // a non-empty parameter dictionary is passed (its names do not occur in the layout)
+	T2ByC1    bool     `json:"t2_by_c1,omitempty"`        // the second step's only link is signed by certificate holder C1 (not authorised there)
+	Mode      string   `json:"mode"`                      // keys | cert | mixed
 	Threshold int      `json:"threshold"`
 	DSSE      bool     `json:"dsse"`
 	Items     []string `json:"items"`
@@ -261,6 +264,10 @@ func buildWorld(base string, dsse bool) *world {
 	md = gen.MustWrap(gen.Link("t2", gen.Arts(), gen.Arts("a", h1), "t2c1"), dsse, C1.Signer)
 	w.t2byC1 = filepath.Join(d, shortName("t2", C1.AsKey.KeyID))
 	md.Dump(w.t2byC1)
+	d = gen.FreshDir(w.dir, "t2k1")
+	md = gen.MustWrap(gen.Link("t2", gen.Arts(), gen.Arts("a", h1), "t2k1"), dsse, K1.Full)
+	w.t2byK1 = filepath.Join(d, shortName("t2", K1.ID))
+	md.Dump(w.t2byK1)
 	return w
 }
 
@@ -368,11 +375,24 @@ func verify(layout intoto.Metadata, keys map[string]intoto.Key, dir string, ch *
 		intoto.VerifPermHook = func(site string, n int) []int { return ch.Perm(site, n) }
 		defer func() { intoto.VerifPermHook = nil }()
 	}
-	_, err := intoto.InTotoVerify(layout, keys, dir, "", map[string]string{}, nil, false)
+	params := map[string]string{}
+	if withParams {
+		params["UNUSED_PARAMETER"] = "value"
+	}
+	_, err := intoto.InTotoVerify(layout, keys, dir, "", params, nil, false)
 	if err != nil {
 		return false, err.Error()
 	}
 	return true, ""
+}
+
+// withParams: verify passes a non-empty parameter dictionary (set from Case.Params)
+var withParams bool
+
+// useT2ByK1 replaces the second step's link in dir by one signed by K1.
+func (w *world) useT2ByK1(dir string) {
+	os.Remove(filepath.Join(dir, filepath.Base(w.t2link)))
+	gen.CopyFile(w.t2byK1, filepath.Join(dir, filepath.Base(w.t2byK1)))
 }
 
 func fullAt(label string) bool { return strings.HasPrefix(label, "VerifyLinkSignatureThesholds#") }
@@ -474,6 +494,15 @@ func (w *world) judge(cs Case, accepted bool, orderDependent bool) (sig string) 
 			return fmt.Sprintf("C02|unsound|second-step-link-by-unauthorised-certificate|%s|%s|%s", cs.Mode, wr, od)
 		}
 		return ""
+	}
+	if cs.T2ByK1 {
+		if accepted {
+			return fmt.Sprintf("C02|unsound|second-step-link-by-a-key-of-the-first-step|%s|%s|%s", cs.Mode, wr, od)
+		}
+		return ""
+	}
+	if cs.Params {
+		wr += "|with-parameters"
 	}
 	if accepted && upper < cs.Threshold {
 		return fmt.Sprintf("C02|unsound|%s|%s|%s", cs.Mode, wr, od)
@@ -605,6 +634,43 @@ func run(c *mcx.Ctx) {
 						}
 						w.populate(popDir, ids)
 					}
+					if t == 1 && mode != "cert" && mode != "cert-no-roots" && len(ids) <= 2 {
+						// variant: step t2 is served only by K1, a key the layout defines and authorises for step s only
+						w.populate(popDir, ids)
+						w.useT2ByK1(popDir)
+						cs4 := Case{Mode: mode, Threshold: 1, DSSE: dsse, Items: ids, T2ByK1: true}
+						v4, ex4 := w.explore(c, cs4, popDir, 0)
+						c.Impl(ex4.Executions)
+						c.Case(true)
+						c.Outcome("t2-by-key-of-first-step|" + map[bool]string{true: "accepted", false: "rejected"}[v4.acc > 0])
+						if v4.acc > 0 {
+							cs4.Choices = v4.firstAcc
+							c.Violation(w.judge(cs4, true, v4.rej > 0), fmt.Sprintf("accepted although step t2 has no link from a functionary authorised for t2 (its only link is signed by K1, authorised for step s only); population for s %v, mode %s", ids, mode), cs4, "accepted t2-by-K1")
+						}
+						w.populate(popDir, ids)
+					}
+					if len(ids) <= 2 && mode != "cert-no-roots" {
+						// the same population with a non-empty parameter dictionary: thresholds and authorisation are what the layout says
+						withParams = true
+						cs5 := Case{Mode: mode, Threshold: t, DSSE: dsse, Items: ids, Params: true}
+						v5, ex5 := w.explore(c, cs5, popDir, 0)
+						withParams = false
+						c.Impl(ex5.Executions)
+						c.Case(true)
+						c.Outcome("with-parameters|" + map[bool]string{true: "accepted", false: "rejected"}[v5.acc > 0])
+						if v5.acc > 0 {
+							if sig := w.judge(cs5, true, v5.rej > 0); sig != "" {
+								cs5.Choices = v5.firstAcc
+								c.Violation(sig, fmt.Sprintf("accepted with a parameter dictionary although only %d distinct authorised functionaries signed validly (threshold %d); population %v, mode %s", upper, t, ids, mode), cs5, fmt.Sprintf("accepted upper=%d lower=%d threshold=%d", upper, lower, t))
+							}
+						}
+						if v5.rej > 0 {
+							if sig := w.judge(cs5, false, v5.acc > 0); sig != "" {
+								cs5.Choices = v5.firstRej
+								c.Violation(sig, fmt.Sprintf("rejected with a parameter dictionary although %d distinct authorised functionaries supplied honest links (threshold %d); population %v, mode %s", lower, t, ids, mode), cs5, fmt.Sprintf("rejected upper=%d lower=%d threshold=%d", upper, lower, t))
+							}
+						}
+					}
 					if c.Shard == 2 && c.WantSample() && len(ids) == 3 && t == 2 {
 						c.Sample(map[string]any{"case": cs, "orders_explored": ex.Executions, "accepting": v.acc, "rejecting": v.rej, "upper": upper, "lower": lower})
 					}
@@ -646,14 +712,22 @@ func replay(c *mcx.Ctx, raw json.RawMessage) (string, string) {
 	if !w.populate(popDir, cs.Items, cs.T2ByC1) {
 		return "population not materialisable", ""
 	}
-	if cs.T2ByC1 {
+	if cs.T2ByK1 {
+		w.useT2ByK1(popDir)
+	}
+	withParams = cs.Params
+	defer func() { withParams = false }()
+	if cs.T2ByC1 || cs.T2ByK1 {
 		layout, keys := w.layout(cs.Mode, cs.Threshold)
 		ok, _ := verify(layout, keys, popDir, mcx.NewReplay(cs.Choices, fullAt))
 		v, _ := w.explore(c, cs, popDir, 0)
 		if ok {
+			if cs.T2ByK1 {
+				return "accepted t2-by-K1", w.judge(cs, true, v.rej > 0)
+			}
 			return "accepted t2-by-C1", w.judge(cs, true, v.rej > 0)
 		}
-		return "rejected t2-by-C1", ""
+		return "rejected", ""
 	}
 	if cs.Threshold == 0 {
 		layout, _ := w.layout(cs.Mode, 1)
